@@ -336,7 +336,7 @@ func c08CheckVerdict(c c08VCase, res runner.Result) error {
 		if res.Status != runner.StatusNormal {
 			return bad("Normal")
 		}
-		if res.Memory < 8<<20 || res.Memory > 64<<20 {
+		if res.Memory < 6<<20 || res.Memory > 64<<20 { // ru_maxrss slack, see memlimit
 			return vh.Violf("C08:measurement", "%+v: Memory=%v for a program that touched 8 MiB", c, res.Memory)
 		}
 	}
